@@ -268,6 +268,27 @@ def run():
             r.violation("urlencodeParams:differs", "urlencodeParams(%r) = %r, specification %r" % (concrete[i], got, results[i]), {"case": cases[i]})
         if i < 2:
             r.sample({"params": cases[i], "expected": results[i]})
+    # ---- many more ephemeral keys on one short parameter list: a treatment of the key bytes that goes wrong for one first byte in 256
+    # (a key-type prefix stripped by value instead of by position) shows within a few thousand keys
+    many_priv = X25519PrivateKey.generate()
+    many_key = Curve.decodePoint(bytearray(b"\x05" + many_priv.public_key().public_bytes(serialization.Encoding.Raw, serialization.PublicFormat.Raw)), 0)
+    ci0 = min(range(ncases), key=lambda i: len(results[i]))
+    firsts = set()
+    for k in range(12000 if thorough else 3000):
+        try:
+            blob = base64.b64decode(req.encryptParams(concrete[ci0], many_key)[0][1])
+            firsts.add(blob[0])
+            shared = many_priv.exchange(X25519PublicKey.from_public_bytes(bytes(blob[:32])))
+            ok_ = AESGCM(shared).decrypt(b"\x00" * 12, bytes(blob[32:]), b"") == results[ci0].encode()
+            why = "decrypts to something else"
+        except Exception as e:
+            ok_, why = False, "%r" % (e,)
+        if not ok_:
+            r.violation("encrypt:undecryptable:some-keys", "encryption #%d of one short parameter list under fresh ephemeral keys: the blob (%d bytes, first key byte 0x%02x) %s" % (
+                k + 1, len(blob), blob[0], why), {"case": cases[ci0]})
+            break
+    r.case(("many-ephemeral-keys", len(firsts)))
+    r.notes["distinct_first_bytes_of_ephemeral_keys"] = len(firsts)
     # ---- encrypted blobs decrypt to the encoded parameter string
     for ci, priv, blob in blobs:
         r.case(("blob", ci, blob[:8].hex()))
